@@ -6,7 +6,8 @@ import Anything.Lemmas.FQShipped
 `Props/C16` proves by a kernel run over the shipped table that the query made of a shipped
 constant's words performs one lookup of that phrase; `Props/C18` proves the describe / isolation
 theorems for all TREES. Here the same facts are proved for query TEXT, for ALL phrases and for ALL
-expressions mixing number literals and fact phrases with `+ - * / ^` and parentheses: the whole
+expressions mixing number literals (also `50 %`) and fact phrases with `+ - * / ^` and
+parentheses: the whole
 pipeline `Eval.query` (lexer, parser, evaluator) applied to the text answers the denotation
 computed from the looked-up constants and reports exactly the lookups, in evaluation order.
 The proofs live in `Lemmas/FQ*.lean` and reuse the infrastructure of `Props/C06`
@@ -102,6 +103,9 @@ name, the words after `to` are a unit; in operand position the same word is a ph
 example :
     (parseRoot ['2', ' ', 'p', 'i']).toOption.map (fun f => f.map Tree.kind) = some [.WITH_UNIT] ∧
     (parseRoot ['p', 'i', '(', '2', ')']).toOption.map (fun f => f.map Tree.kind) = some [.FN_CALL] ∧
+    (parseRoot ['1', ' ', 't', 'o', ' ', 'p', 'i']).toOption.map
+      (fun f => f.map (fun t => t.kids.map Tree.kind)) =
+        some [[.NUMBER, .WHITESPACE, .OP_CAST, .WHITESPACE, .UNIT]] ∧
     (parseRoot ['2', ' ', '*', ' ', 'p', 'i']).toOption.map (fun f => f.map Tree.kind) = some [.OPERATION] ∧
     (parseRoot ['s', 'p', 'e', 'e', 'd', ' ', 'o', 'f', ' ', 'l', 'i', 'g', 'h', 't']).toOption.map (fun f => f.map Tree.kind) = some [.SENTENCE] ∧
     (parseRoot ['p', 'i']).toOption.map (fun f => f.map Tree.kind) = some [.WORD] := by
@@ -283,7 +287,7 @@ looked-up constants and the literal's value; the describing run reports the phra
 phrases the RIGHT one first. -/
 theorem C18_query_flat (cfg : Cfg) (op : BinOp) (l : Literal) (f g : List Char) (mf mg : More)
     (ws : Layout) (cf cg : Fact) (hf : PhraseOK f mf) (hg : PhraseOK g mg) (hl : LitOK l)
-    (hpc : l.percent = false) (hdbf : cfg.db (phraseText f mf) = .found cf)
+    (hdbf : cfg.db (phraseText f mf) = .found cf)
     (hdbg : cfg.db (phraseText g mg) = .found cg) :
     (QueryLayoutOKF (.bin op (.fact f mf) (.lit l)) ws →
       ∃ r, strip r = arithV cfg op ⟨cf.value, cf.unit⟩ (plain (value l)) ∧
@@ -302,12 +306,12 @@ theorem C18_query_flat (cfg : Cfg) (op : BinOp) (l : Literal) (f g : List Char) 
   have hlt : ∀ o : BinOp, o.prio < 100 := prio_lt_100
   refine ⟨fun hlay => ?_, fun hlay => ?_, fun hlay => ?_⟩
   · obtain ⟨r, hr, hq⟩ := query_renderF cfg (.bin op (.fact f mf) (.lit l)) ws
-      ⟨hf, ⟨hl.1, hpc⟩, Nat.le_of_lt (hlt op), hlt op⟩ hlay ⟨trivial, hl, hpc⟩
+      ⟨hf, hl.1, Nat.le_of_lt (hlt op), hlt op⟩ hlay ⟨trivial, hl⟩
     refine ⟨r, ?_, ?_⟩
     · simpa [denote, FExpr.prio, hp op, lookupV, hdbf] using hr
     · simpa [logD, denote, FExpr.prio, hp op, lookupLog, lookupV, hdbf] using hq
   · obtain ⟨r, hr, hq⟩ := query_renderF cfg (.bin op (.lit l) (.fact g mg)) ws
-      ⟨⟨hl.1, hpc⟩, hg, Nat.le_of_lt (hlt op), hlt op⟩ hlay ⟨⟨hl, hpc⟩, trivial⟩
+      ⟨hl.1, hg, Nat.le_of_lt (hlt op), hlt op⟩ hlay ⟨hl, trivial⟩
     refine ⟨r, ?_, ?_⟩
     · simpa [denote, FExpr.prio, hp op, lookupV, hdbg] using hr
     · simpa [logD, denote, FExpr.prio, hp op, lookupLog, lookupV, hdbg] using hq
@@ -384,7 +388,7 @@ theorem FQ_ex_in_scope :
     WFF ex ∧ QueryLayoutOKF ex [[], [], [' ', ' ']] ∧ LitsOKF ex := by
   have hw : ∀ w : List Char, wordLitCheck w = true → WordLit w := fun _ h => wordLit_of_check h
   refine ⟨by decide +kernel, ?_, ?_, ?_⟩
-  · refine ⟨⟨⟨⟨hw _ (by decide +kernel), fun _ h => nomatch h⟩, ⟨by decide, rfl⟩, by decide,
+  · refine ⟨⟨⟨⟨hw _ (by decide +kernel), fun _ h => nomatch h⟩, (by decide : Literal.WF _), by decide,
       by decide⟩, ⟨hw _ (by decide +kernel), fun _ h => nomatch h⟩, by decide, by decide⟩,
       ⟨hw _ (by decide +kernel), ?_⟩, by decide, by decide⟩
     intro bw hbw
@@ -440,6 +444,20 @@ example :
       (fun x => match x with | .error (.err k s t) => some (k, s, t) | _ => none) =
       [some (.missing, 1, 3)] := by decide +kernel
 
+/-- Test (labelled as a test): a percent literal next to a phrase, `e * 50 %` with `e ↦ 2`: the
+general theorem applies (`WFF`, `LitsOKF` hold) and the model's pipeline answers `1`. -/
+example :
+    let half : FExpr := .lit ⟨none, [5, 0], none, none, true⟩
+    WFF (.bin .mul e half) ∧ LitsOKF (.bin .mul e half) ∧
+    (denote cfg0 (.bin .mul e half)).toOption.map (·.value) = some 1 ∧
+    String.ofList (renderQuery (.bin .mul e half) []) = " e * 50 % " ∧
+    (Eval.query cfg0 (renderQuery (.bin .mul e half) [])).toOption.map
+      (fun r => r.1.map (fun x => x.toOption.map (·.value))) = some [some 1] := by
+  refine ⟨⟨⟨wordLit_of_check (by decide +kernel), fun _ h => nomatch h⟩,
+    (by decide : Literal.WF _), by decide, by decide⟩, ⟨trivial, ?_⟩,
+    by decide +kernel, by decide +kernel, by decide +kernel⟩
+  exact ⟨by decide, by decide, fun _ h => nomatch h⟩
+
 /-- **The layout hypothesis is needed**: `pi +e5` — no blank after the binary `+` in front of a
 phrase beginning with `e` — is ONE phrase `pi +e5` for the tool (`+e5` lexes as a number), not
 a sum. -/
@@ -472,8 +490,12 @@ example :
   (`FQ_layout_needed`); `LayoutOKF` asks for a blank there (conservatively for every such phrase).
 * **A word list is a phrase only in operand position**: after a number the same words are a unit
   expression, after `to` likewise, and a word glued to `(` is a function name (tests above).
-* Error spans are not specified (`strip`): they are byte offsets into the text and depend on the
-  layout.
+* Error spans are not specified for nested expressions (`strip`): they are byte offsets into the
+  text and depend on the layout; for a single phrase they are exact (`C16_phrase`).
+* **Scope.** Operands are number literals (optionally with a percent sign) and fact phrases;
+  function calls (`Props/C06`), literals with units and `to` (`Props/QuantityQuery`) are not
+  combined with phrases here. A "word" such as `2x` (digit first, then letters) is two tokens for
+  the lexer; it is not a `PWord`.
 -/
 
 end Anything.Props.FactQuery
